@@ -2,7 +2,7 @@ package main
 
 // Further extension points of the fsm scenario driver for per-property files (C16, C17, C22, C26);
 // the step names are plugged into the shared driver through registerStepKind:
-//   registerStep("name", f)          a new directed step name (exact match)
+//   registerStepF4("name", f)          a new directed step name (exact match)
 //   registerStepPrefix("pfx", f)     a family of step names "pfx<arg>"
 //   registerFreshStep("name")        the step may run before a swap id exists (it creates the swap)
 //   registerTail("Cxx", f)           runs after every scenario when psh fsm is called with -focus Cxx
@@ -15,7 +15,7 @@ var freshExtraSteps = map[string]bool{}
 var scenarioTails = map[string]func(sc *Scen){}
 var directedFor = map[string][]directed{}
 
-func registerStep(name string, f func(sc *Scen))                   { extraSteps[name] = f }
+func registerStepF4(name string, f func(sc *Scen))                   { extraSteps[name] = f }
 func registerStepPrefix(prefix string, f func(sc *Scen, a string)) { extraStepPrefixes[prefix] = f }
 func registerFreshStep(prefix string)                              { freshExtraSteps[prefix] = true }
 func registerTail(focus string, f func(sc *Scen))                  { scenarioTails[focus] = f }
